@@ -111,6 +111,15 @@ def extract():
 
     # --- parse_precedence / expression -------------------------------------------------------
     pp = re.sub(r"\s+", " ", _fn_body(expr, "parse_precedence"))
+    # since /repo 91d9b38 the loop lives in parse_precedence_after(ctx, expr, prec), which
+    # parse_precedence enters right after prefix(); the older single-function shape is accepted too
+    if "parse_precedence_after(ctx, expr, prec)" in pp:
+        if "prefix(ctx)?" not in pp:
+            raise Untranslatable("expression.rs: parse_precedence no longer starts with prefix(ctx)?")
+        pp = pp + " " + re.sub(r"\s+", " ", _fn_body(expr, "parse_precedence_after"))
+        ea = re.sub(r"\s+", " ", _fn_body(expr, "expression_after")).strip()
+        if not re.fullmatch(r"parse_precedence_after\(ctx, value, Prec::([A-Za-z]+)\)", ea):
+            raise Untranslatable("expression.rs: expression_after() is not parse_precedence_after(ctx, value, Prec::X)")
     if "prefix(ctx)?" not in pp or "while prec <= precedence(ctx.token())" not in pp \
             or "if !valid_infix(ctx) { break; }" not in pp or "infix(ctx, &expr)?" not in pp:
         raise Untranslatable("expression.rs: parse_precedence no longer has the modelled shape")
@@ -119,6 +128,10 @@ def extract():
     if not me or me.group(1) not in levels:
         raise Untranslatable("expression.rs: expression() is not parse_precedence(ctx, Prec::X)")
     entry = me.group(1)
+    mea = re.search(r"parse_precedence_after\(ctx, value, Prec::([A-Za-z]+)\)", _fn_body(expr, "expression_after")) \
+        if "fn expression_after" in expr else None
+    if mea and mea.group(1) != entry:
+        raise Untranslatable("expression.rs: expression_after() enters at Prec::%s, expression() at Prec::%s" % (mea.group(1), entry))
 
     # --- unary -------------------------------------------------------------------------------
     ub = _fn_body(expr, "unary")
